@@ -35,6 +35,7 @@ RULE = ("race cases = (scenario, line-level schedule): scenario in {connection_l
         "bound (quick 2, thorough 4; short scenarios exhaustively in thorough). non-trivial = a schedule in which the "
         "other thread runs while the sender is between its first and last line (distinct by scenario+choices). "
         "queue cases = random add_job/run_job sequences, line-level schedules of 2 producers + pump, 8x200 stress.")
+RULE += ' Plus: Transport.send over a REAL socket (socketpair) that is already dead - closed by the reader thread / peer gone / shut down: nothing escapes, the loss is reported.'
 ASSUMPTIONS = [
     "attribute load/store, deque.append/popleft/truth test are atomic (CPython); a thread switch can occur between any two of the modelled steps, not inside one",
     "connection.write is atomic with respect to close: it either finds the connection open and writes the whole argument, or raises OSError having written nothing (pyserial ReaderThread.write/close share a lock; PortNotOpenError and socket EBADF are OSError - measured); serial.close() from connection_lost(exc) does not take that lock: a write interrupted by it at OS level is not modelled",
